@@ -102,18 +102,22 @@ func (se *SignalEnum) verifyValueIndex(index int) error {
 		newSize := calcSizeFromValue(index)
 
 		for _, tmpSig := range se.refs.entries() {
-			if tmpSig.hasParentMsg() {
-				if err := tmpSig.parentMsg.verifySignalSizeAmount(tmpSig.entityID, newSize-prevSize); err != nil {
+			// as in signal.modifySize, a multiplexed signal lives in the groups
+			// of its multiplexer and not in the layout of the message
+			if tmpSig.hasParentMuxSig() {
+				if err := tmpSig.parentMuxSig.verifySignalSizeAmount(tmpSig.entityID, newSize-prevSize); err != nil {
 					se.parErrID = tmpSig.entityID
 					return &ValueIndexError{
 						Index: index,
 						Err:   err,
 					}
 				}
+
+				continue
 			}
 
-			if tmpSig.hasParentMuxSig() {
-				if err := tmpSig.parentMuxSig.verifySignalSizeAmount(tmpSig.entityID, newSize-prevSize); err != nil {
+			if tmpSig.hasParentMsg() {
+				if err := tmpSig.parentMsg.verifySignalSizeAmount(tmpSig.entityID, newSize-prevSize); err != nil {
 					se.parErrID = tmpSig.entityID
 					return &ValueIndexError{
 						Index: index,
